@@ -105,7 +105,7 @@ Mix ==
                              "RenameMetabolite", "SetObjective", "SetDirection", "SetMedium", "AddUserCons", "AddGroup", "AddGroup",
                              "GroupAddMembers", "GroupRemoveMembers",
                              "RemoveGroup", "Annotate", "Annotate", "Annotate", "Analyze", "Enter", "Exit", "SwitchSolver",
-                             "RxnArith", "RxnArith", "Merge", "Merge", "AddArith", "AddArith", "AddArith", "SetAttr",
+                             "RxnArith", "RxnArith", "Merge", "Merge", "MergeNew", "AddArith", "AddArith", "AddArith", "SetAttr",
                              "SetAttr", "SetTolerance", "SetTolerance">>
     [] Profile = "io" -> <<"RoundTrip", "RoundTrip", "RoundTrip", "RoundTrip", "AddReactions", "RemoveReactions", "RxnAddMetabolites",
                            "SetBounds", "SetBounds", "SetLB", "SetUB", "SetRule", "SetObjective", "SetObjCoef",
@@ -221,7 +221,7 @@ DrawOp(r, S) ==
          base @@ [field |-> f, x |-> IF f \in {"formula", "charge"} THEN mt ELSE IF f = "subsys" THEN rx ELSE Pick(<<rx, mt, gn>>, d[9]),
                   v |-> IF f = "charge" THEN Pick(<<99, 0, 2, -1>>, d[10]) ELSE 1 + (d[10] % 3)]
     [] k = "Copy" -> [a |-> k, s |-> 1, t |-> 2, kind |-> Pick(<<"copy", "deepcopy", "pickle">>, d[8])]
-    [] k = "Merge" -> [a |-> k, s |-> s, t |-> 3 - s, obj |-> Pick(<<"left", "left", "right", "sum">>, d[8])]
+    [] k \in {"Merge", "MergeNew"} -> [a |-> k, s |-> s, t |-> 3 - s, obj |-> Pick(<<"left", "left", "right", "sum">>, d[8])]
     [] k = "AddArith" -> [a |-> k, s |-> s, t |-> IF d[10] % 3 = 0 THEN s ELSE 3 - s, r |-> rx, q |-> rx2,
                           kind |-> Pick(<<"add", "copy", "add", "sub", "mul">>, d[8]), k |-> Pick(<<2, -1>>, d[9]),
                           new |-> PickPresent(PlainRx, RxU \ C.rxns, d[11])]
@@ -273,6 +273,7 @@ CopyOps ==
    [a |-> "GeneKnockOut", s |-> 1, g |-> "g1"],
    [a |-> "Merge", s |-> 1, t |-> 2, obj |-> "left"],
    [a |-> "Merge", s |-> 2, t |-> 1, obj |-> "sum"],
+   [a |-> "MergeNew", s |-> 1, t |-> 2, obj |-> "right"],
    [a |-> "SetDirection", s |-> 2, dir |-> "min"],
    [a |-> "Enter", s |-> 1], [a |-> "Exit", s |-> 1]}
 \* analysis vocabulary: analyses (each called twice by the driver) after / between the edits that leave hidden
